@@ -19,7 +19,8 @@
 (* Targets are sequences of integers: <<0>> the root target, <<n>> the fresh result of leaf *)
 (* execution n, Append(t, j) item j of t, <<-1, f>> the container built by frame f,          *)
 (* <<-2>> \o t the one-entry dict {'K': t} an mdict feeds to its pattern, <<-3>> its key,      *)
-(* <<-4, f>> the dict a match-dict frame f returns.                                          *)
+(* <<-4, f>> the dict a match-dict frame f returns, <<-5, g>> generator g, <<-6>> None,       *)
+(* <<-7>> a string (a dict key).                                                             *)
 (*                                                                                     *)
 (* Spec trees: node = [k |-> kind, a |-> attribute, c |-> <<children>>]                  *)
 (*   leaves   new (returns a fresh target) | same (returns its target) -- both consult    *)
@@ -35,7 +36,8 @@
 (*   branches coal (Coalesce), coalskip (Coalesce whose skip predicate rejects every value), or, *)
 (*            and, not, switch (children k1 v1 k2 v2 ...),                                   *)
 (*            mdict (Match-mode dict with one key/value spec pair, a: none)                *)
-(*   wrappers auto | fill | match (mode), spec (a: name; Spec(sub, scope={name: path})),   *)
+(*   wrappers auto | fill | match | group (mode; group evaluates its sub-spec per item of the   *)
+(*            target and a `stop` leaf directly under it ends the iteration early), spec (a: name; Spec(sub, scope={name: path})),   *)
 (*            refdef (a: name; Ref(name, sub))                                              *)
 (*   lazy     iter (Iter(sub): a generator, target <<-5, g>>) | consume (the callable list)  *)
 EXTENDS Integers, Sequences, FiniteSets, TLC
@@ -44,9 +46,10 @@ CONSTANT Mutant    \* "none": glom as repaired;  otherwise a named deviation of 
 
 N(k, a, c) == [k |-> k, a |-> a, c |-> c]
 
-GlomitKinds == {"new", "same", "copy", "coalskip", "fail", "smiss", "iter", "refdef", "refuse", "vbind", "vset", "vread", "mark", "probe", "read", "sbind", "abind", "gbind", "gread", "pipe", "coal",
+GlomitKinds == {"new", "same", "copy", "coalskip", "fail", "smiss", "iter", "refdef", "refuse", "vbind", "vset", "vread", "mark", "group", "stop", "probe", "read", "sbind", "abind", "gbind", "gread", "pipe", "coal",
                 "or", "and", "not", "switch", "mdict", "auto", "fill", "match", "spec"}
-ModeOf(k) == CASE k = "auto" -> "AUTO" [] k = "fill" -> "FILL" [] k = "match" -> "MATCH"
+ModeOf(k) == CASE k = "auto" -> "AUTO" [] k = "fill" -> "FILL" [] k = "match" -> "MATCH" [] k = "group" -> "GROUP"
+ModeKinds == {"auto", "fill", "match", "group"}
 
 \* ---- frames --------------------------------------------------------------------------------
 Frame(par, path, mode, minmode, tgt) ==
@@ -113,6 +116,16 @@ Resolve(frames, f, name) ==
        IF i # 0 THEN [found |-> TRUE, val |-> frames[f].binds[i][2]]
        ELSE Resolve(frames, frames[f].par, name)
 
+\* what iterating a target yields: a Tok its two sub-targets, a container built during the call what was
+\* recorded for it, the one-entry dict an mdict feeds its (string) key; None and strings are not iterable
+RECURSIVE ContItems(_, _, _)
+ContItems(conts, f, i) == IF i = 0 THEN <<>> ELSE IF conts[i].f = f THEN conts[i].items ELSE ContItems(conts, f, i - 1)
+Iterable(tgt) == Head(tgt) >= 0 \/ Head(tgt) \in {-1, -2, -4}
+ItemsOf(st, tgt) ==
+  CASE Head(tgt) >= 0 -> <<Append(tgt, 1), Append(tgt, 2)>>
+    [] Head(tgt) \in {-1, -4} -> ContItems(st.conts, tgt[2], Len(st.conts))
+    [] Head(tgt) = -2 -> << <<-7>> >>
+    [] OTHER -> <<>>
 RECURSIVE NodeAt(_, _)
 NodeAt(tree, path) == IF path = <<>> THEN tree ELSE NodeAt(tree.c[Head(path)], Tail(path))
 
@@ -125,7 +138,7 @@ Log(st, rec) == [st EXCEPT !.log = Append(@, rec @@ [at |-> Len(st.acts)])]   \*
 RECURSIVE Run(_, _, _, _, _), RunChain(_, _, _, _, _, _, _), RunAll(_, _, _, _, _, _, _),
           RunCoal(_, _, _, _, _, _), RunOr(_, _, _, _, _, _), RunAnd(_, _, _, _, _, _, _),
           RunSwitch(_, _, _, _, _, _), RunItems(_, _, _, _, _, _, _), RunFillDict(_, _, _, _, _, _),
-          RunGen(_, _, _, _), RunCoalSkip(_, _, _, _, _, _)
+          RunGen(_, _, _, _), RunCoalSkip(_, _, _, _, _, _), RunGroup(_, _, _, _, _, _, _)
 
 EffMode(st, f) == IF st.frames[f].minmode THEN "ARG" ELSE st.frames[f].mode
 
@@ -202,6 +215,11 @@ Run(st0, par, node, path, tgt) ==
                              v |-> IF rr.found /\ Head(rr.val) = "v" THEN st2.vars[rr.val[2]] ELSE <<"inv">>]), "ok", tgt, 0, 0)
           [] node.k \in {"auto", "fill", "match"} ->
                Run(SetMode(st2, f, ModeOf(node.k)), f, node.c[1], Append(path, 1), tgt)
+          [] node.k = "group" ->       \* Group(sub): sub once per item of the target, in GROUP mode; STOP ends it early
+               \* (the result before any item is None, <<-6>>; iterating None fails with UnregisteredTarget)
+               IF ~Iterable(tgt) THEN LET sg == SetMode(st2, f, "GROUP") IN Res(NewErr(sg, f, 0), "err", tgt, f, sg.eid + 1)
+               ELSE RunGroup(SetMode(st2, f, "GROUP"), f, node, path, 1, tgt, <<-6>>)
+          [] node.k = "stop" -> Res(st2, "stop", tgt, 0, 0)            \* a leaf returning STOP (only directly under group)
           [] node.k = "pipe" -> RunChain(st2, f, node, path, 1, f, tgt)
           [] node.k = "tup" ->
                IF EffMode(st2, f) = "AUTO" THEN RunChain(st2, f, node, path, 1, f, tgt)
@@ -233,7 +251,8 @@ Run(st0, par, node, path, tgt) ==
                      THEN Res(NewErr(rk.st, d, 0), "err", tgt, d, rk.st.eid + 1)        \* key didn't match any
                      ELSE LET ch == Chain(rk.st, d)
                               rv == Run(ch.st, ch.s, node.c[2], Append(path, 2), tgt)
-                          IN IF rv.out = "err" THEN rv ELSE Res(rv.st, "ok", <<-4, d>>, 0, 0)
+                          IN IF rv.out = "err" THEN rv
+                             ELSE Res([rv.st EXCEPT !.conts = Append(@, [f |-> d, items |-> <<rk.res>>])], "ok", <<-4, d>>, 0, 0)
                IN IF inner.out = "err" THEN Res(Fail(inner.st, d, inner.e), "err", tgt, inner.org, inner.e) ELSE inner
   IN IF r.out = "err" THEN Res(Fail(r.st, f, r.e), "err", r.res, r.org, r.e) ELSE r
 
@@ -246,20 +265,24 @@ RunChain(st, f, node, path, i, scope, cur) ==
 
 \* all children on the same target, as children of f (dict values, Fill containers)
 RunAll(st, f, node, path, i, tgt, acc) ==
-  IF i > Len(node.c) THEN Res(st, "ok", <<-1, f>>, 0, 0)
+  IF i > Len(node.c)
+  THEN \* what iterating the built container yields: a dict its (string) keys, a tuple / list its elements
+       Res([st EXCEPT !.conts = Append(@, [f |-> f, items |-> IF node.k = "dict" THEN [j \in 1..Len(acc) |-> <<-7>>] ELSE acc])],
+           "ok", <<-1, f>>, 0, 0)
   ELSE LET r == Run(st, f, node.c[i], Append(path, i), tgt)
        IN IF r.out = "err" THEN r ELSE RunAll(r.st, f, node, path, i + 1, tgt, Append(acc, r.res))
 
 \* FILL / ARG dict: {recurse(key): recurse(val)}: a frame for the (literal) key, then the value
 RunFillDict(st, f, node, path, i, tgt) ==
-  IF i > Len(node.c) THEN Res(st, "ok", <<-1, f>>, 0, 0)
+  IF i > Len(node.c)
+  THEN Res([st EXCEPT !.conts = Append(@, [f |-> f, items |-> [j \in 1..Len(node.c) |-> <<-7>>]])], "ok", <<-1, f>>, 0, 0)
   ELSE LET stk == Enter(st, f, Append(Append(path, i), 0), tgt)
            r == Run(stk, f, node.c[i], Append(path, i), tgt)
        IN IF r.out = "err" THEN r ELSE RunFillDict(r.st, f, node, path, i + 1, tgt)
 
 \* _handle_list: the sub-spec over each item of the target (targets have two items)
 RunItems(st, f, node, path, j, tgt, acc) ==
-  IF j > 2 THEN Res(st, "ok", <<-1, f>>, 0, 0)
+  IF j > 2 THEN Res([st EXCEPT !.conts = Append(@, [f |-> f, items |-> acc])], "ok", <<-1, f>>, 0, 0)
   ELSE LET r == Run(st, f, node.c[1], Append(path, 1), Append(tgt, j))
        IN IF r.out = "err" THEN r ELSE RunItems(r.st, f, node, path, j + 1, tgt, Append(acc, r.res))
 
@@ -274,6 +297,13 @@ RunCoal(st, f, node, path, i, tgt) ==
   IF i > Len(node.c) THEN Res(NewErr(st, f, 0), "err", tgt, f, st.eid + 1)
   ELSE LET r == Run(st, f, node.c[i], Append(path, i), tgt)
        IN IF r.out = "ok" THEN r ELSE RunCoal(r.st, f, node, path, i + 1, tgt)
+
+RunGroup(st, f, node, path, j, tgt, last) ==
+  IF j > Len(ItemsOf(st, tgt)) THEN Res(st, "ok", last, 0, 0)
+  ELSE LET r == Run(st, f, node.c[1], Append(path, 1), ItemsOf(st, tgt)[j])
+       IN IF r.out = "err" THEN r
+          ELSE IF r.out = "stop" THEN Res(r.st, "ok", last, 0, 0)
+          ELSE RunGroup(r.st, f, node, path, j + 1, tgt, r.res)
 
 \* Coalesce(..., skip=<rejects every value>): an alternative that returns is skipped like one that raises;
 \* when none is left the CoalesceError is raised here -- possibly after a last alternative that did not raise
@@ -304,7 +334,7 @@ RunSwitch(st, f, node, path, i, tgt) ==
 \* one top-level glom(target, tree, scope=callerBinds) call
 Start(tree, plan, callerBinds) ==
   Run([frames |-> <<RootFrame(<<0>>, callerBinds)>>, acts |-> <<>>, leaf |-> 0, eid |-> 0, plan |-> plan,
-       log |-> <<>>, gl |-> <<>>, errs |-> <<>>, gens |-> <<>>, vars |-> <<>>, tree |-> tree], 1, tree, <<>>, <<0>>)
+       log |-> <<>>, gl |-> <<>>, errs |-> <<>>, gens |-> <<>>, vars |-> <<>>, conts |-> <<>>, tree |-> tree], 1, tree, <<>>, <<0>>)
 
 \* ---- static tree helpers ------------------------------------------------------------------------
 RECURSIVE Leaves(_)
@@ -318,7 +348,7 @@ Leaves(t) == IF t.k \in {"new", "same"} THEN 1
 RECURSIVE LexMode(_, _, _)
 LexMode(tree, path, cur) ==
   IF path = <<>> \/ Head(path) = 0 THEN cur
-  ELSE LexMode(tree.c[Head(path)], Tail(path), IF tree.k \in {"auto", "fill", "match"} THEN ModeOf(tree.k) ELSE cur)
+  ELSE LexMode(tree.c[Head(path)], Tail(path), IF tree.k \in ModeKinds THEN ModeOf(tree.k) ELSE cur)
 ModeLexical(tree, acts) ==
   \A i \in 1..Len(acts) : acts[i].a = "enter" => acts[i].mode = LexMode(tree, acts[i].path, "AUTO")
 
